@@ -7,7 +7,7 @@ from hypothesis import strategies as st
 
 from .ref import fields as F
 
-INT_TAGS = ("special", "pow2", "mpow2", "limbs", "toplike", "sparse", "dense", "uniform", "small")
+INT_TAGS = ("special", "pow2", "mpow2", "limbs", "toplike", "sparse", "dense", "uniform", "small", "runs")
 
 
 def _limbs(draw, bits, limb=32):
@@ -85,6 +85,13 @@ def ints(draw, bits, m=None, tags=INT_TAGS):
             v &= ~(1 << b)
     elif tag == "small":
         v = draw(st.integers(0, 70))
+    elif tag == "runs":
+        # a few runs of consecutive one bits (long carry / borrow chains at arbitrary positions)
+        v = 0
+        for _ in range(draw(st.integers(1, 3))):
+            ln = draw(st.integers(1, bits))
+            pos = draw(st.integers(0, bits - 1))
+            v ^= (((1 << ln) - 1) << pos) & full
     else:
         v = draw(st.integers(0, full))
     return tag, v
